@@ -1717,6 +1717,8 @@ def from_arg_matches(body, src):
 def call_value(ex, st, f, rest):
     if isinstance(f, (Ref, BoxV)):
         f = ex.deref_all(f)
+    if isinstance(f, PyFn):
+        return f.fn(ex, st, list(rest))
     if isinstance(f, Closure):
         body = ex.p.by_name[f.name][0]
         by_ref = body.locals.get(body.args[0], '').startswith('&')
